@@ -278,8 +278,21 @@ static int a_thread_revive(void)
 }
 static int a_thread_revive_up(void)
 {
+    /* a terminated unit of a built-in pool is revived into the user-defined pool:
+     * create_unit and the unit map allocate */
+    g_h = "na";
+    return ABT_thread_revive(g_up, body, NULL, &g_dead);
+}
+static int a_thread_revive_same(void)
+{
     g_h = "na";
     return ABT_thread_revive(g_up, body, NULL, &g_deadu);
+}
+static int a_thread_revive_down(void)
+{
+    /* from the user-defined pool to a built-in one: the user unit is freed */
+    g_h = "na";
+    return ABT_thread_revive(g_p1, body, NULL, &g_deadu);
 }
 static int a_xstream_create(void)
 {
@@ -516,6 +529,7 @@ typedef struct {
     int (*attempt)(void);
     void (*undo)(void);
     int needs_ult; /* the routine must be called by a ULT */
+    int nowarm;    /* a warm-up call would change what the call under fault does */
 } op_t;
 static const op_t OPS[] = {
     { "init", "none", NULL, NULL }, /* ABT_init itself */
@@ -530,7 +544,9 @@ static const op_t OPS[] = {
     { "task_create_xs", "p0", a_task_create_xs, NULL },
     { "task_create_up", "up", a_task_create_up, NULL },
     { "thread_revive", "p1", a_thread_revive, NULL },
-    { "thread_revive_up", "upr", a_thread_revive_up, NULL },
+    { "thread_revive_up", "upk", a_thread_revive_up, NULL, 0, 1 },
+    { "thread_revive_same", "upr", a_thread_revive_same, NULL },
+    { "thread_revive_down", "p1f", a_thread_revive_down, NULL, 0, 1 },
     { "xstream_create", "nx", a_xstream_create, u_xstream },
     { "xstream_create_basic", "nx", a_xstream_create_basic, u_xstream },
     { "xstream_create_rank", "nx", a_xstream_create_rank, u_xstream },
@@ -562,8 +578,8 @@ static const op_t OPS[] = {
     { "set_specific_pre", "pk", a_set_specific_pre, NULL },
     { "set_callback", "none", a_set_callback, NULL },
     { "migrate_to_pool", "none", a_migrate_to_pool, NULL },
-    { "set_main_sched_basic", "none", a_set_main_sched_basic, NULL, 1 },
-    { "set_main_sched", "none", a_set_main_sched, NULL, 1 },
+    { "set_main_sched_basic", "none", a_set_main_sched_basic, NULL, 1, 1 },
+    { "set_main_sched", "none", a_set_main_sched, NULL, 1, 1 },
     { "info_print", "none", a_info_print, NULL },
 };
 #define NOPS ((int)(sizeof OPS / sizeof OPS[0]))
@@ -771,7 +787,7 @@ static int cycle(const op_t *op, int k, uint64_t var)
         }
     }
     int warm = 0;
-    if (op->attempt && !g_cold && strcmp(op->name, "set_main_sched_basic") && strcmp(op->name, "set_main_sched")) {
+    if (op->attempt && !g_cold && !op->nowarm) {
         /* warm-up: one successful call and its undo, so that the routine's
          * caches (memory pools) are in the state the faulted call will find */
         warm = 1;
